@@ -92,7 +92,8 @@ pub async fn run_history(
         let post = match driver.snapshot().await {
             Ok(s) => s,
             Err(e) => {
-                rep.inconclusive(format!("snapshot failed after {}: {}", op.name(), e));
+                h.log.push(json!({"op": op.to_json(), "result": res.to_json()}));
+                view_query_failed(rep, property, &h, op.name(), &e);
                 return;
             }
         };
@@ -108,6 +109,21 @@ pub async fn run_history(
     }
     rep.count("histories", 1);
     rep.count("operations", total as u64);
+}
+
+/// The views could not be produced after an operation. A panic inside a query is a violation
+/// for the properties that speak about every served view / about panics / about scaling ending
+/// in a served state; otherwise (and for non-panic errors) nothing can be concluded.
+fn view_query_failed(rep: &mut Report, property: &str, h: &HistCtx, op: &str, err: &str) {
+    if err.starts_with("PANIC:") && matches!(property, "C01" | "C10" | "C12") {
+        rep.violation(
+            format!("{}:view-query-panicked:after-{}", property, op),
+            format!("after {} the broker panics while serving its cluster / proxy views: {}", op, err),
+            json!({"sub_seed": h.sub_seed, "cfg": format!("{:?}", h.cfg), "layout": h.layout, "history": h.log}),
+        );
+    } else {
+        rep.inconclusive(format!("snapshot failed after {}: {}", op, err));
+    }
 }
 
 // ---------------------------------------------------------------------------------------------
@@ -149,7 +165,8 @@ impl<'a> ScaleRun<'a> {
         let post = match self.driver.snapshot().await {
             Ok(s) => s,
             Err(e) => {
-                self.rep.inconclusive(format!("snapshot failed: {}", e));
+                self.h.log.push(json!({"op": op.to_json(), "result": res.to_json()}));
+                view_query_failed(self.rep, "C10", &self.h, op.name(), &e);
                 return None;
             }
         };
